@@ -45,7 +45,7 @@ def plan(tier):
 
 
 def run(tier, seed):
-    return checkbase.run_e1("C02", tier, seed, TECH, plan(tier), monitors.c02, 240, 1800,
+    return checkbase.run_e1("C02", tier, seed, TECH, (lambda: plan(tier)), monitors.c02, 240, 1800,
                             "executions = complete runs of the real traversal, one per choice sequence (durations, outcomes incl. result-never-reported, "
                             "tie order) with at most k non-default choices, plus persistent-failure and retry settings; distinct = distinct (scenario, "
                             "(worker,test,status) sequence); horizon = 6000 loop steps / 3000 virtual seconds (a normal run needs < 300 steps)",
